@@ -47,7 +47,9 @@ static const char *const fmts[NFMT] = {
 	"zero-a\n", "zero-b\n", "zero-c\n", "zero-d\n", "zero-e\n", "zero-f\n", "zero-g\n",
 	"one #%lu\n", "two #%lu [%s]\n", "three #%lu %d '%c'\n", "nice #%lu/%lx\n",
 };
-static const char *const words[5] = { "alpha", "bravo", "charlie", "delta", "echo" };
+/* one argument is long enough to make the formatted line exceed any small fixed buffer (150 characters) */
+static const char *const words[5] = { "alpha", "bravo", "charlie", "delta",
+	"echo-echo-echo-echo-echo-echo-echo-echo-echo-echo-echo-echo-echo-echo-echo-echo-echo-echo-echo-echo-echo-echo-echo-echo-echo-echo-echo-echo-echo-echo" };
 enum { K_ZERO, K_ONE, K_TWO, K_THREE, K_NICE };
 
 typedef struct { uint8_t kind, f; uint64_t a[3]; } msg_t;
@@ -93,7 +95,7 @@ static void issue(const msg_t *m, int nice)
 
 /* -------------------------------------------------------------- live state */
 
-#define TEXTMAX 56
+#define TEXTMAX 192
 #define MAXEXP 8
 static struct live {
 	struct mlog lg;			/* image of mlog.c's static log (copied in/out around every operation) */
